@@ -248,6 +248,13 @@ pub(crate) struct ByteReader<T> {
     inner: Vec<T>,
 }
 
+#[cfg(fe2o3_amqp_verif)]
+impl<T> ByteReader<T> {
+    pub(crate) fn verif_new(inner: Vec<T>) -> Self {
+        Self { inner }
+    }
+}
+
 impl io::Read for ByteReader<Payload> {
     fn read(&mut self, dst: &mut [u8]) -> io::Result<usize> {
         let mut nbytes_read = 0;
